@@ -278,7 +278,7 @@ def _fstring_text(quote: str, raw: bool) -> str:
     """literal part of an f-string: stops at an unescaped brace and never runs past the closing quote"""
     q = quote[0]
     named = "" if raw else r"|N\{"  # named unicode escape: its braces are not a replacement field
-    body = rf"[^{q}\\{{}}]|\\(?![{{}}]{named})[\s\S]?|\\(?=[{{}}])|{{{{|}}}}"
+    body = rf"[^{q}\\{{}}]|\\(?![{{}}]{named})[\s\S]|\\(?=[{{}}])|{{{{|}}}}"
     if not raw:
         body += r"|\\N\{[^{}]*\}"
     if len(quote) == 3:
@@ -293,7 +293,7 @@ def _fstring_patterns(quote: str, raw: bool) -> str:
 
 def _fstring_spec_patterns(quote: str) -> str:
     q = quote[0]
-    text = rf"(?:[^{q}\\{{}}]|\\[\s\S]?)*"
+    text = rf"(?:[^{q}\\{{}}]|\\[\s\S])*"
     return choice(LBrace=text + r"\{", RBrace=text + r"\}")
 
 
